@@ -274,7 +274,18 @@ func c08Exec(sc c08Scenario) (detail string, labels map[string]bool) {
 	case <-time.After(15 * time.Second):
 		return fmt.Sprintf("events and the clean stream end were sent but the stream never finished (consumer has %d events)", len(cons.snapshot())), labels
 	}
-	return c08Judge(sc, cons, want, labels, func() { closed = true; within(30*time.Second, func() { st.Close(false) }) })
+	d, labels := c08Judge(sc, cons, want, labels, func() {})
+	if d == "" {
+		// what the session leaves behind for the next one: a checkpoint at or above F (a stored position below F would have
+		// the next session show events at or below F again)
+		within(20*time.Second, func() { st.Save() })
+		if t, ok := fm.snapshot()[vb]; ok && t.Seq < sc.F {
+			d = fmt.Sprintf("after the rollback session the stored checkpoint is seq %d (vbUUID %d), below the position F=%d that was already checkpointed: the next session shows events in (%d,%d] again", t.Seq, t.UUID, sc.F, t.Seq, sc.F)
+		}
+	}
+	closed = true
+	within(30*time.Second, func() { st.Close(false) })
+	return d, labels
 }
 
 // c08SendEvents streams the scenario's events on the given stream and returns the document events the consumer must see.
